@@ -31,12 +31,27 @@ CLAIMED = {
     'C13': {'technique': 'who-may-call over the call graph, global-store scan, effect (read-only) analysis of formatters, control-dependence of option branches',
             'level': 'exhaustive over all functions reachable from the assembler entry points, all 59 formatter roots, all option branches',
             'note': NOTE},
+    'C09': {'technique': 'sibling-constant agreement (macro marker), CFG must-restore query, loop-shape check of .repeat',
+            'level': 'exhaustive over the marker sites, include_parse paths, the repeat copy loop; narrow (no textual equivalence)',
+            'note': NOTE},
+    'C10': {'technique': 'operator-table extraction, exhaustive evaluation of comparison cases, decision-table extraction, error-propagation dataflow',
+            'level': 'exhaustive over the 7 condition operators, the 2x2 ifdef table, opener sets and every error result of the conditional machinery',
+            'note': NOTE},
+    'C11': {'technique': 'pool-walker protocol check, lookup-order check, definition-name read mode, field width agreement',
+            'level': 'exhaustive over the 14 pool walkers, Symbols::find, the 4 definition sites; partial',
+            'note': NOTE},
     'C12': {'technique': 'CFG path search after every diagnostic, discarded-result dataflow, abstract interpretation of main()',
             'level': 'exhaustive over every diagnostic call site, every call to an error-returning function and every '
                      'path of main() reachable from naken_asm; path-insensitive to infeasible branches except the modelled idioms',
             'note': NOTE},
     'C18': {'technique': 'call-order / argument-identity check of the listing hook, effect analysis of formatters, data-dump selection constant',
             'level': 'exhaustive over assemble()\'s listing hook, the dump loop and the 59 formatter roots; narrow: not the formatters\' text',
+            'note': NOTE},
+    'C19': {'technique': 'byte-lane provenance of Memory accessors, unit-scaling expression shape, exhaustive digit-step evaluation, null-path search',
+            'level': 'exhaustive over the six memory commands and the number/address parsers; narrow',
+            'note': NOTE},
+    'C20': {'technique': 'parameter-name transposition check over the link chain, call-order and argument-flow check, bit-provenance of the jal patch',
+            'level': 'exhaustive over the functions and calls of the link chain; partial (no object-file placement semantics)',
             'note': NOTE},
 }
 
